@@ -258,10 +258,18 @@ def daemon_fn(env: Env, hid: str, reaction: str = 'obeys', lifetime: float | Non
 
         async def flagwatch() -> None:
             await stopped.wait()
-            flagged.append(True)
-            env.log('daemon-flag', id=hid, uid=uid, name=name, op=op, inst=inst, reason=str(stopped.reason))
+            if not flagged:
+                flagged.append(True)
+                env.log('daemon-flag', id=hid, uid=uid, name=name, op=op, inst=inst, reason=str(stopped.reason))
         watcher = asyncio.create_task(flagwatch(), name=f'flagwatch {hid} {inst}')
         how = 'returned'
+
+        def seen_flag() -> None:
+            # the flag as the daemon sees it when the cancellation reaches it (the watching task may not have had its turn yet)
+            if stopped.is_set() and not flagged:
+                flagged.append(True)
+                env.log('daemon-flag', id=hid, uid=uid, name=name, op=op, inst=inst, reason=str(stopped.reason))
+
         try:
             if reaction == 'exits':
                 await asyncio.sleep(lifetime or 0)
@@ -274,6 +282,7 @@ def daemon_fn(env: Env, hid: str, reaction: str = 'obeys', lifetime: float | Non
                     await asyncio.Event().wait()
                 except asyncio.CancelledError:
                     how = 'cancelled'
+                    seen_flag()
                     env.log('daemon-cancelled', id=hid, uid=uid, name=name, op=op, inst=inst)
                     if exit_delay:
                         try:
@@ -286,6 +295,7 @@ def daemon_fn(env: Env, hid: str, reaction: str = 'obeys', lifetime: float | Non
                     try:
                         await asyncio.Event().wait()
                     except asyncio.CancelledError:
+                        seen_flag()
                         env.log('daemon-cancelled', id=hid, uid=uid, name=name, op=op, inst=inst)
                         if env.closed:
                             how = 'teardown'
